@@ -87,6 +87,10 @@ def wrap(r, nd):
         return r
     if isinstance(r, S):
         return S(r.n, _np.dtype(nd))
+    if isinstance(r, (int, float, _np.integer, _np.floating)) and not isinstance(r, (bool, _np.bool_)) and _is_float_dt(_np.dtype(nd)):
+        # a 0-d object-array operation handed back the raw Python number it picked (np.maximum(0, a) on a 0-d array): NumPy
+        # proper would have returned a scalar of the result dtype
+        return S(const(r), _np.dtype(nd))
     return r
 
 
